@@ -270,3 +270,39 @@ Example ex_uc :
   parse_uc [mkU US s1a1 STAR; mkU UH s27 s1a1; mkU UOther s27 STAR; mkU UL lib STAR; mkU UH s1a9 s1a1]
   = ROk (mkUT [s1a1; lib] [lb [115;49;95;97]%Z; lb [115;50]%Z] [[2;1];[0;0]]%Z).
 Proof. vm_compute. reflexivity. Qed.
+
+(* ---- translator tie (DESIGN 3.1 T13): biom/parse.py parse_uc regenerated by tools/py2v_uc ---- *)
+(* Gen/UcGen.v is re-translated from the source on every check; these theorems say the generated
+   text computes the hand-written model on every input (Proofs/GenBridgeUcProofs.v).  The model
+   at the level of the text is Model/UcText.v: uc_record (a line -> the record uc_step folds). *)
+From BiomV Require Import Model.Slicer Model.UcText Gen.StrPrelude Gen.UcPrelude Gen.UcGen Proofs.GenBridgeUcProofs.
+
+(* one turn of the loop: on a state whose two dicts index their id lists (inv_st), the generated
+   turn is uc_record followed by uc_step on the state without the dicts (abs_st), errors included,
+   and the invariant is kept *)
+Theorem parse_uc_line_is_source : forall st line, inv_st st ->
+  out_res (obind (parse_uc_line_gen HSL st line) (fun st' => Val (abs_st st')))
+    = Some (uc_step_text (ROk (abs_st st)) line)
+  /\ forall st', parse_uc_line_gen HSL st line = Val st' -> inv_st st'.
+Proof. exact parse_uc_line_is_source_lemma. Qed.
+Print Assumptions parse_uc_line_is_source.
+
+(* the function: the arguments handed to the constructor are the data / ids of the hand fold *)
+Theorem parse_uc_is_source : forall fh,
+  out_res (parse_uc_gen fh) = Some (uc_call_of (uc_fold_text fh)).
+Proof. exact parse_uc_is_source_lemma. Qed.
+Print Assumptions parse_uc_is_source.
+
+(* ... and with the constructor of Model/Construct.v (uc_matrix) on those arguments it is parse_uc_text *)
+Theorem parse_uc_text_is_source : forall fh,
+  exists r, out_res (parse_uc_gen fh) = Some r /\
+            match r with ROk c => uc_table_of_call c | RErr e => RErr e end = parse_uc_text fh.
+Proof. exact parse_uc_text_is_source_lemma. Qed.
+Print Assumptions parse_uc_text_is_source.
+
+(* when every line parses to a record, the text-level importer is the record-level parse_uc the
+   theorems above (uc_count, uc_ids_once, uc_total, uc_error) are about *)
+Theorem parse_uc_text_on_records : forall lines rs,
+  all_records lines = Some rs -> parse_uc_text lines = parse_uc rs.
+Proof. exact parse_uc_text_records. Qed.
+Print Assumptions parse_uc_text_on_records.
